@@ -103,6 +103,11 @@ var targeted = []string{
 	"a := [\n    1\n\n\n    2\n\n\n\n    3\n]\nm := {\n    a:1\n\n\n    b:2\n\n\n}\nprint a m\n",
 	"a := [ // c1\n    1 // c2\n\n\n    // c3\n    [\n\n\n        2\n\n\n        3\n    ]\n]\nprint a\n",
 	"m := {a:[\n\n\n    1\n    2\n\n\n\n] b:{\n\n\n    x:1\n\n\n}}\nprint m // trailing\n\n\n\n// end\n",
+	// misspelt names that are equally close to several known names (diagnostics that suggest or list candidates)
+	"printt 1\ncolur \"red\"\nrand2 3\nx := lenn \"abc\"\nprnt x\nmovee 1 2\nstr2nu \"1\"\n",
+	"func alpha1 n:num\n    print n\nend\nfunc alpha2 n:num\n    print n\nend\nfunc beta:num\n    return 1\nend\nalpha3 1\nalpha 2\nx := bet\nprint x\nbeta1\n",
+	"count1 := 1\ncount2 := 2\ncountx := count3 + count\nprint count1 count2 countx\nm := {aa:1 ab:2}\nprint m.ac m.a\n",
+	"on keyy k:string\n    print k\nend\non dwn x:num y:num\n    print x y\nend\non key k:strin\n    print k\nend\nx:nums\ny:[]strng\n",
 	"print [\n\n\n    \"a\"\n\n\n    \"b\"\n] {\n\n\n    k:1\n}\nfunc f:[]num\n    return [\n        1\n\n\n        2\n    ]\nend\nprint (f)\n",
 }
 
@@ -140,6 +145,15 @@ func (d *D) Base(idx int, ctx *core.Ctx) *core.Scenario {
 			o.Unused, o.NearMiss = true, true
 		}
 		sc = work.Generated(r, o, "C08", ctx.Seed, idx)
+		if r.Chance(0.2) {
+			lines := strings.Split(sc.Program, "\n")
+			for n := r.Range(1, 3); n > 0; n-- {
+				i := r.Intn(len(lines))
+				lines[i] = typo(r, lines[i])
+			}
+			sc.Program = strings.Join(lines, "\n")
+			sc.Kind += "+typos"
+		}
 	}
 	sc.NoTestSummary = false
 	return sc
@@ -156,7 +170,9 @@ func mutate(r *prng.R, src string) string {
 	}
 	for n := r.Range(1, 3); n > 0; n-- {
 		i := r.Intn(len(lines))
-		switch r.Intn(4) {
+		switch r.Intn(6) {
+		case 4, 5:
+			lines[i] = typo(r, lines[i])
 		case 0:
 			lines = append(lines[:i], lines[i+1:]...)
 		case 1:
@@ -175,6 +191,57 @@ func mutate(r *prng.R, src string) string {
 		}
 	}
 	return strings.Join(lines, "\n")
+}
+
+// typo misspells one identifier of the line by a single edit (drop, double, replace or
+// append a character, swap two): the result is usually a near miss of one or more known
+// names, which is where diagnostics start to list or suggest candidates.
+func typo(r *prng.R, line string) string {
+	type span struct{ a, b int }
+	var ids []span
+	inStr := false
+	for i := 0; i < len(line); {
+		c := line[i]
+		if c == '"' {
+			inStr = !inStr
+		}
+		if !inStr && (c >= 'a' && c <= 'z' || c >= 'A' && c <= 'Z' || c == '_') {
+			j := i
+			for j < len(line) && (line[j] >= 'a' && line[j] <= 'z' || line[j] >= 'A' && line[j] <= 'Z' || line[j] >= '0' && line[j] <= '9' || line[j] == '_') {
+				j++
+			}
+			ids = append(ids, span{i, j})
+			i = j
+			continue
+		}
+		if !inStr && c == '/' && i+1 < len(line) && line[i+1] == '/' {
+			break
+		}
+		i++
+	}
+	if len(ids) == 0 {
+		return line
+	}
+	sp := ids[r.Intn(len(ids))]
+	w := []byte(line[sp.a:sp.b])
+	k := r.Intn(len(w))
+	switch r.Intn(5) {
+	case 0:
+		if len(w) > 1 {
+			w = append(w[:k], w[k+1:]...)
+		}
+	case 1:
+		w = append(w[:k+1], w[k:]...)
+	case 2:
+		w[k] = "abcdefghijklmnopqrstuvwxyz"[r.Intn(26)]
+	case 3:
+		w = append(w, "123xt"[r.Intn(5)])
+	case 4:
+		if k+1 < len(w) {
+			w[k], w[k+1] = w[k+1], w[k]
+		}
+	}
+	return line[:sp.a] + string(w) + line[sp.b:]
 }
 
 // schedules draws K schedules; the first is always plain ascending.
